@@ -208,10 +208,10 @@ func vc12Exec(in *c12h.Input) c12h.Obs {
 
 func TestVerif_C12main_sections(t *testing.T) {
 	c12h.Run(t, &c12h.Part{
-		Name: "main-sections",
-		Rule: "parseNodeFromSection / readNodeWithKnownSize / readNodeFromReaderAtWithOffsetAndSize / readNodeSizeFromReaderAtWithOffset / carCountItems / carCountItemsByFirstByte on mutated sections and CAR files: no panic, allocation <= 32MiB + 16 MiB (index size field) + 16*len, no hang",
+		Name:  "main-sections",
+		Rule:  "parseNodeFromSection / readNodeWithKnownSize / readNodeFromReaderAtWithOffsetAndSize / readNodeSizeFromReaderAtWithOffset / carCountItems / carCountItemsByFirstByte on mutated sections and CAR files: no panic, allocation <= 96 MiB (32 MiB section cap of go-car + 32 MiB digest cap of go-cid + growth + 16 MiB index size field) + 16*len, no hang",
 		Seeds: vc12Seeds, Gen: vc12Gen, Exec: vc12Exec,
-		Budget: func(in *c12h.Input) uint64 { return 48<<20 + uint64(16*len(in.Data)) + 2*in.Aux[0] },
+		Budget: func(in *c12h.Input) uint64 { return 96<<20 + uint64(16*len(in.Data)) + 2*in.Aux[0] },
 		Witnesses: func(seeds []c12h.Seed) map[string]c12h.Input {
 			s := &seeds[len(seeds)-3]
 			off, cl, dl := int(s.Nums[1]), int(s.Nums[2]), int(s.Nums[3])
